@@ -41,6 +41,38 @@ type Case struct {
 	ExpectTarget                                       string `json:"expect_target,omitempty"` // known by construction for clean URLs ("" = unknown)
 	N                                                  int    `json:"n,omitempty"`             // handles: how many lookups run at once (n+2)
 	Status                                             int    `json:"status,omitempty"`        // what the servers answer to everything that is not planted (default 200)
+	// handle: what the webfinger answer says about the actor's address besides the address itself (seed C04-K):
+	// the advertised media type, and further members; "" = application/activity+json and nothing else
+	WfType string `json:"wf_type,omitempty"`
+	// Again: the whole operation is carried out a second time (after the response cache has been emptied): what the
+	// servers said the first time (validators, cookies, advertised types) must not show in the second round
+	Again bool `json:"again,omitempty"`
+}
+
+// what a server may say about itself in a 200 answer: none of it may come back in a later request
+const baitHeaders = "ETag: \"tag-1\"\r\nLast-Modified: Mon, 01 Jan 2024 00:00:00 GMT\r\nSet-Cookie: session=1; Secure\r\nVary: Accept, Cookie\r\n" +
+	"Alt-Svc: h2=\":443\"\r\nAccept-CH: Sec-CH-UA\r\nLink: <https://example.org/ns>; rel=\"profile\"\r\nStrict-Transport-Security: max-age=1\r\n"
+
+func baited(contentType, body string) *vsim.Route {
+	return &vsim.Route{Raw: "HTTP/1.1 200 OK\r\nContent-Type: " + contentType + "\r\n" + baitHeaders + "\r\n" + body}
+}
+
+var wfTypes = []string{"", "", "", "application/activity+json",
+	`application/ld+json; profile="https://www.w3.org/ns/activitystreams"`,
+	"application/ld+json; profile=\"https://www.w3.org/ns/activitystreams\"\r\nCookie: a=b",
+	"application/ld+json\nX-Injected: 1", "application/ld+json\r\n\r\nGET /second HTTP/1.0\r\nHost: x\r\n",
+	"application/ld+json, text/html;q=0.1", "application/ld+json;q=1;token=tracking-id-4711", "APPLICATION/LD+JSON; charset=utf-8",
+	"application/activity+json\r\nAuthorization: Basic eDp5", "application/activity+json; profile=x\nUser-Agent: servitor",
+	"application/json", "text/html", " application/ld+json ", "application/ld+json\t\r\n Folded: 1"}
+
+func (c Case) webfingerAnswer(prefix string) string {
+	wfType := c.WfType
+	if wfType == "" {
+		wfType = "application/activity+json"
+	}
+	return `{"subject":"acct:x","aliases":["https://%H1%` + prefix + `/alias"],"properties":{"http://example.org/ns/token":"tracking-id-4711"},"links":[` +
+		`{"rel":"http://webfinger.net/rel/profile-page","type":"text/html","href":"https://%H1%` + prefix + `/profile"},` +
+		`{"rel":"self","type":` + vgen.JSONString(wfType) + `,"href":"https://%H1%` + prefix + `/actor","titles":{"und":"x"},"properties":{"a":"b"}}]}`
 }
 
 const accept1 = `application/activity+json,application/ld+json; profile="https://www.w3.org/ns/activitystreams"`
@@ -98,7 +130,7 @@ func check(c Case) vrep.Result {
 	for h := 0; h < sim.Hosts(); h++ {
 		switch c.Status {
 		case 0, 200:
-			sim.Set(h, "*", vsim.JSON(actorDoc))
+			sim.Set(h, "*", baited("application/activity+json", actorDoc))
 		default:
 			// refusals and errors must not make servitor say more about itself on a second try
 			sim.Set(h, "*", &vsim.Route{Raw: fmt.Sprintf("HTTP/1.1 %d Refused\r\nContent-Type: application/activity+json\r\nWWW-Authenticate: Basic realm=\"x\"\r\nSet-Cookie: session=1\r\n\r\n%s", c.Status, actorDoc)})
@@ -106,6 +138,9 @@ func check(c Case) vrep.Result {
 	}
 	// the process runs with cache_size = 1: one filler fetch empties the response cache, so that a
 	// URL which was fetched by an earlier case is requested again
+	if c.Again {
+		classes = append(classes, "carried-out-twice")
+	}
 	sim.Set(1, prefix+"/filler", vsim.JSON(actorDoc)) // always a success, whatever the case's servers answer otherwise: only successes are cached
 	if link, err := url.Parse(sim.URL(1, prefix+"/filler")); err == nil {
 		jtp.Get(link, accept1, []string{"application/activity+json"}, 0)
@@ -120,12 +155,23 @@ func check(c Case) vrep.Result {
 		text := expand(c.urlText())
 		hostile = isHostile(text)
 		pub.FetchUserInput(text)
+		if c.Again {
+			emptyCache(prefix)
+			pub.FetchUserInput(text)
+		}
 	case "handle":
 		text := "@" + c.Acct + "@" + expand(c.Domain)
 		hostile = isHostile(text)
-		sim.Set(0, "*", &vsim.Route{Raw: "HTTP/1.1 200 OK\r\nContent-Type: application/jrd+json\r\n\r\n" +
-			`{"subject":"acct:x","links":[{"rel":"self","type":"application/activity+json","href":"https://%H1%` + prefix + `/actor"}]}`})
+		sim.Set(0, "*", baited("application/jrd+json", c.webfingerAnswer(prefix)))
+		if c.WfType != "" {
+			classes = append(classes, "webfinger-advertises-another-type")
+			hostile = hostile || strings.ContainsAny(c.WfType, "\r\n")
+		}
 		pub.FetchUserInput(text)
+		if c.Again {
+			emptyCache(prefix)
+			pub.FetchUserInput(text)
+		}
 	case "handles":
 		// several handles looked up at the same time, as a feed does: each lookup is its own request to its own host
 		answer := &vsim.Route{Raw: "HTTP/1.1 200 OK\r\nContent-Type: application/jrd+json\r\n\r\n" +
@@ -223,9 +269,24 @@ func check(c Case) vrep.Result {
 	return vrep.Result{Classes: classes, Nontrivial: hostile && connected}
 }
 
+// emptyCache: one successful fetch of another address pushes everything else out of the one-entry response cache.
+// The filler's own request is well-formed by construction and is judged like every other.
+func emptyCache(prefix string) {
+	if link, err := url.Parse(sim.URL(1, prefix+"/filler")); err == nil {
+		jtp.Get(link, accept1, []string{"application/activity+json"}, 0)
+	}
+}
+
+func imin(a, b int) int {
+	if a < b {
+		return a
+	}
+	return b
+}
+
 func (c Case) describe(expand func(string) string) string {
 	if c.Kind == "handle" {
-		return "@" + c.Acct + "@" + expand(c.Domain)
+		return "@" + c.Acct + "@" + expand(c.Domain) + " (webfinger advertises type " + c.WfType + ")"
 	}
 	return c.Kind + " " + c.Field + " " + expand(c.urlText())
 }
@@ -297,11 +358,14 @@ func gen(t *rapid.T) Case {
 	case "handle":
 		c.Acct = rapid.SampledFrom(accts).Draw(t, "acct")
 		c.Domain = rapid.SampledFrom(domains).Draw(t, "domain")
+		c.WfType = rapid.SampledFrom(wfTypes).Draw(t, "wftype")
+		c.Again = rapid.IntRange(0, 3).Draw(t, "again") == 0
 	case "planted":
 		c.Field = rapid.SampledFrom([]string{"inReplyTo", "attributedTo", "audience", "replies", "collection-first", "items", "id"}).Draw(t, "field")
 		genURLParts(t, &c, true)
 	default:
 		genURLParts(t, &c, c.Kind == "location")
+		c.Again = c.Kind == "url" && rapid.IntRange(0, 3).Draw(t, "again") == 0
 	}
 	return c
 }
